@@ -5,7 +5,7 @@ exit code and VIOLATION line in seeded/<id>/meta.json ("repo_protocol"). /repo m
 /repo meanwhile. Evidence and found/ written while a change is applied are discarded."""
 import fnmatch, glob, json, os, shutil, subprocess, sys
 ROOT = os.path.dirname(os.path.dirname(os.path.abspath(__file__)))
-pats = sys.argv[1:] or ["*"]
+pats = [a for a in sys.argv[1:] if not a.startswith("--")] or ["*"]
 def sh(cmd, cwd=None):
     r = subprocess.run(cmd, shell=True, cwd=cwd, capture_output=True, text=True)
     return r.returncode, r.stdout + r.stderr
